@@ -112,6 +112,49 @@ def check_file_block(case, rec):
             break
 
 
+@st.composite
+def far_file_case(draw):
+    pts = draw(st.lists(far_case(), min_size=1, max_size=5))
+    # the ends of Python's datetime range (years 1 and 9999) and their neighbours
+    edges = [[-60052752000, 0], [-60052752001, 999999], [255485231999, 999999], [255485232000, 0], [255485232000, 1]]
+    for _ in range(draw(st.integers(0, 2))):
+        pts.insert(draw(st.integers(0, len(pts))), dict(zip(('sec', 'us'), draw(st.sampled_from(edges)))))
+    return {'points': [[p['sec'], p['us']] for p in pts], 'second_segment': draw(st.booleans())}
+
+
+def check_file_far(case, rec):
+    """datetime64[us] values anywhere in the representable range, as channel data and as properties, through a file"""
+    from nptdms import TdmsFile, TdmsWriter, ChannelObject, RootObject
+    arr = np.array([EPOCH_US + np.timedelta64(s, 's') + np.timedelta64(u, 'us') for (s, u) in case['points']],
+                   dtype='datetime64[us]')
+    years = arr.astype('datetime64[Y]').astype(np.int64) + 1970
+    outside = bool(np.any((years < 1) | (years > 9999)))
+    rec.nontrivial(outside or any(u % 1000 for (_s, u) in case['points']))
+    rec.label('beyond_python_datetime_range' if outside else 'within_python_datetime_range')
+    out = io.BytesIO()
+    props = {'t%d' % i: arr[i] for i in range(len(arr))}
+    try:
+        with TdmsWriter(out) as w:
+            w.write_segment([RootObject(props), ChannelObject('g', 't', arr), ChannelObject('g', 'after', np.arange(3, dtype='i4'))])
+            if case['second_segment']:
+                w.write_segment([ChannelObject('g', 't', arr[::-1].copy())])
+        tf = TdmsFile.read(io.BytesIO(out.getvalue()))
+        got = np.asarray(tf['g']['t'][:])
+        after = np.asarray(tf['g']['after'][:])
+    except Exception as e:      # noqa
+        rec.violation('file_roundtrip:raised', '%r: %s' % (case['points'], describe_exc(e)), key=exc_key(e))
+        return
+    want = np.concatenate([arr, arr[::-1]]) if case['second_segment'] else arr
+    if got.dtype != np.dtype('<M8[us]') or len(got) != len(want) or not bool(np.all(got == want)):
+        rec.violation('file_roundtrip:data', 'wrote %s, read %s (%s)' % (want, got, got.dtype))
+    if after.tolist() != [0, 1, 2]:
+        rec.violation('file_roundtrip:data', 'the channel written after the timestamps reads %r' % (after.tolist(),))
+    for k, v in props.items():
+        if tf.properties.get(k) != v:
+            rec.violation('file_roundtrip:property', 'property %s: wrote %s read %s' % (k, v, tf.properties.get(k)))
+            break
+
+
 # ---------------------------------------------------------------------------------------------
 # (b) conversions
 
@@ -327,6 +370,8 @@ def check(case, rec):
         return check_file_block(case, rec)
     if 'res' in case:
         return check_conversion(case, rec)
+    if 'points' in case:
+        return check_file_far(case, rec)
     if 'vals' in case:
         return check_raw(case, rec)
     return check_track(case, rec)
@@ -353,6 +398,7 @@ def jobs(tier):
                     check=check_roundtrip, note='every 64th microsecond value in the years 2500, 1000 and 6657'),
                 Job('any_second_boundary_microseconds', 'hyp', far_case, n=20000, check=check_roundtrip),
                 Job('file_blocks', 'enum', _blocks([3524551547], 4000, 2), check=check_file_block),
+                Job('file_any_date', 'hyp', far_file_case, n=3000, check=check_file_far),
                 Job('conversions', 'hyp', conv_case, n=30000, check=check_conversion),
                 Job('raw_defragment', 'hyp', raw_case, n=1500, check=check_raw),
                 Job('time_track', 'hyp', track_case, n=4000, check=check_track)]
@@ -363,6 +409,7 @@ def jobs(tier):
             Job('any_second_boundary_microseconds', 'hyp', far_case, n=400000, check=check_roundtrip),
             Job('file_blocks', 'enum', _blocks([3524551547, -12345], 10000, 10 ** 6), exhaustive=True,
                 check=check_file_block, note='all 10^6 microsecond values through TdmsWriter/TdmsFile as data'),
+            Job('file_any_date', 'hyp', far_file_case, n=100000, check=check_file_far),
             Job('conversions', 'hyp', conv_case, n=600000, check=check_conversion),
             Job('raw_defragment', 'hyp', raw_case, n=40000, check=check_raw),
             Job('time_track', 'hyp', track_case, n=100000, check=check_track)]
